@@ -1,17 +1,27 @@
 """C10 -- aggregation-based prolongators reproduce the near-nullspace candidates.
 
-correspondence : rebuilt kernels fit_candidates (real/complex), satisfy_constraints_helper, calc_BtB,
-                 incomplete_mat_mult_bsr and the public functions tentative.fit_candidates,
-                 smooth.satisfy_constraints, utils.filter_operator, utils.scale_T,
-                 smooth.jacobi_prolongation_smoother / richardson_prolongation_smoother (unfiltered and
-                 filtered) vs the Lean models of Model/C10.lean (binary64 replay, exact on Rat /
-                 Gaussian rationals for dyadic and perfect-square instances) and the proof-side
-                 definitions of Proofs/C10*.lean (`c10_p_*` ops).
+correspondence : (A) rebuilt kernels fit_candidates (real/complex; binary64 replay bit by bit, exact Rat /
+                 Gaussian-rational run on perfect-square instances), satisfy_constraints_helper, calc_BtB,
+                 incomplete_mat_mult_bsr (exact, dyadic data) vs the loop-by-loop models of Model/C10.lean;
+                 (B) public functions tentative.fit_candidates, smooth.satisfy_constraints,
+                 utils.filter_operator (+ compute_BtBinv), utils.scale_T, smooth.jacobi_prolongation_smoother
+                 (unfiltered: diagonal / local / block; filtered), smooth.richardson_prolongation_smoother,
+                 smooth.energy_prolongation_smoother with krylov = cg / cgnr (whole loop, with and without root
+                 nodes) vs the models, and vs the proof-side definitions the theorems of Props/C10.lean are
+                 about (`c10_p_fit` = GS.mgs per aggregate, `c10_p_proj` = C10.project, `c10_p_smooth` = both
+                 sides of smoothing_polynomial, `c10_p_reset` = I_F X + P_I); the driver also decides the
+                 hypotheses of updates_keep_product / updates_keep_pattern on every filtered-Jacobi / cg / cgnr
+                 instance (each projected update annihilates B_c exactly, lies in the pattern, and the proof-side
+                 fold applyUpdates reproduces the model's P).
 search         : the property itself on the real code with independent dense NumPy oracles:
-                 T^H T, T B_c = B, zero rows, pattern for fit_candidates; (P - T) B_c = 0 and
-                 supp(P - T) inside the allowed pattern for every energy / filtered-Jacobi variant;
-                 polynomial identity for unfiltered Jacobi / Richardson; identity rows, injection and
-                 row-wise reproduction for root-node prolongators; all levels of real hierarchies.
+                 T^H T = diag(1/0), T B_c = B on aggregated unknowns, zero rows, pattern(T) = AggOp (x) block,
+                 number of zero columns = local rank deficiency for fit_candidates; (P - T) B_c = 0 and
+                 supp(P - T) inside the allowed pattern (pre-filter recomputed independently) for every energy
+                 variant (cg / cgnr / gmres x degree 0..2 x maxiter 1..4 x weighting x pre-filters) and filtered
+                 Jacobi; the polynomial identity for unfiltered Jacobi / Richardson (real and complex); identity
+                 rows, injection and row-wise reproduction of B for root-node prolongators (scale_T, energy with
+                 extra candidates and post-filters); every level of smoothed_aggregation_solver /
+                 rootnode_solver hierarchies (keep=True, improve_candidates=None).
 """
 import contextlib
 import hashlib
